@@ -172,6 +172,7 @@ struct Twin {
     eb: HashMap<(i64, i64), EdgeId>,
     n: i64,
     cypher_writes: bool,
+    lab: bool, // the measure is declared for label M only, and only odd nodes carry M
 }
 
 fn rows(b: Result<samyama::query::RecordBatch, String>, col_is_node: bool, h_of: &HashMap<NodeId, i64>) -> Value {
@@ -238,10 +239,10 @@ impl Twin {
     }
 }
 
-fn run_store(s: &Script, tr: &mut Trace, cypher_writes: bool) -> Res<()> {
-    tr.reset(&format!("{}@store{}", s.sid, if cypher_writes { "-cy" } else { "" }))?;
+fn run_store(s: &Script, tr: &mut Trace, cypher_writes: bool, lab: bool) -> Res<()> {
+    tr.reset(&format!("{}@store{}{}", s.sid, if cypher_writes { "-cy" } else { "" }, if lab { "-lab" } else { "" }))?;
     let mut w = Twin { a: GraphStore::new(), b: GraphStore::new(), eng: QueryEngine::new(), ida: HashMap::new(), idb: HashMap::new(),
-                       ea: HashMap::new(), eb: HashMap::new(), n: 0, cypher_writes };
+                       ea: HashMap::new(), eb: HashMap::new(), n: 0, cypher_writes, lab };
     let mut declared = false;
     for step in &s.steps {
         let op = gs(step, "op");
@@ -260,8 +261,12 @@ fn run_store(s: &Script, tr: &mut Trace, cypher_writes: bool) -> Res<()> {
                     if let Some(p) = halves_to_prop(&step["meas"][h as usize - 1]) {
                         pm.insert("units".into(), p);
                     }
-                    w.ida.insert(h, w.a.create_node_with_properties(T, vec![Label::new("T")], pm.clone()));
-                    w.idb.insert(h, w.b.create_node_with_properties(T, vec![Label::new("T")], pm));
+                    let mut ls = vec![Label::new("T")];
+                    if !w.lab || h % 2 == 1 {
+                        ls.push(Label::new("M"));
+                    }
+                    w.ida.insert(h, w.a.create_node_with_properties(T, ls.clone(), pm.clone()));
+                    w.idb.insert(h, w.b.create_node_with_properties(T, ls, pm));
                 }
                 let mut r = Ok(());
                 for e in step["cover"].as_array().cloned().unwrap_or_default() {
@@ -275,7 +280,8 @@ fn run_store(s: &Script, tr: &mut Trace, cypher_writes: bool) -> Res<()> {
             }
             "Build" => {
                 declared = true;
-                w.q(0, "CREATE HIERARCHY INDEX h ON ()-[:IS_A]->() MEASURE units AGGREGATE sum, count, min, max").map(|_| ())
+                let m = if w.lab { "M.units" } else { "units" };
+                w.q(0, &format!("CREATE HIERARCHY INDEX h ON ()-[:IS_A]->() MEASURE {m} AGGREGATE sum, count, min, max")).map(|_| ())
             }
             "Rebuild" => w.q(0, "REBUILD HIERARCHY INDEX h").map(|_| ()),
             "UpdateMeasure" => {
@@ -467,8 +473,9 @@ fn run(scripts: &str, trace: &str, opts: &Opts) -> Res<()> {
         for layer in layers.split(',') {
             match layer {
                 "api" => run_api(s, &mut tr)?,
-                "store" => run_store(s, &mut tr, false)?,
-                "store-cy" => run_store(s, &mut tr, true)?,
+                "store" => run_store(s, &mut tr, false, false)?,
+                "store-cy" => run_store(s, &mut tr, true, false)?,
+                "store-lab" => run_store(s, &mut tr, false, true)?,
                 _ => panic!("layer {layer}"),
             }
         }
